@@ -52,11 +52,11 @@ theorem digestOf_congr {d d' : Data} (h : tailBytes d = tailBytes d') (t : Nat) 
 theorem allOk_congr (m : KeyMode) (T : Table) {d d' : Data} (h : tailBytes d = tailBytes d') :
     ∀ (ps : List PathSeg) (ss : List SigSeg) (t : Nat), AllOk hash verify m T d t ps ss → AllOk hash verify m T d' t ps ss
   | p :: ps, s :: ss, t, hall => by
-    simp only [AllOk] at hall ⊢
+    simp only [allOk_cons] at hall ⊢
     refine ⟨?_, allOk_congr m T h ps ss p.asn hall.2⟩
     rw [← digestOf_congr h]; exact hall.1
-  | _, [], _, _ => by simp [AllOk]
-  | [], _ :: _, _, hall => by simp [AllOk] at hall
+  | _, [], _, _ => by simp [allOk_nil]
+  | [], _ :: _, _, hall => by simp [allOk_nil_cons] at hall
 
 theorem buildPath_lengths (base : Data) : ∀ hops : List (Signer SK × Nat),
     (buildPath hash sign base hops).path.length = hops.length ∧ (buildPath hash sign base hops).sigs.length = hops.length
@@ -116,7 +116,7 @@ theorem buildPath_allOk (m : KeyMode) (T : Table) (base : Data) : ∀ hops : Lis
     Chained hops → (∀ h ∈ hops, Registered m T h.1 ∧ KeyPair verify sign h.1) →
     AllOk hash verify m T (buildPath hash sign base hops) (buildPath hash sign base hops).targetAs
       (buildPath hash sign base hops).path (buildPath hash sign base hops).sigs
-  | [], _, _ => by simp [buildPath, AllOk]
+  | [], _, _ => by simp [buildPath, allOk_nil]
   | (x, t) :: older, hch, hreg => by
     have ih := buildPath_allOk m T base older
       (by cases older with
@@ -132,14 +132,14 @@ theorem buildPath_allOk (m : KeyMode) (T : Table) (base : Data) : ∀ hops : Lis
       rw [alignBytes_signing d1 (by simp [d1, D', hlen])]; rfl
     show AllOk hash verify m T (forward hash sign D' x t) t (x.seg :: D'.path)
       (⟨x.ski, sign x.sk (hash (alignBytes .signing d1))⟩ :: D'.sigs)
-    simp only [AllOk]
+    simp only [allOk_cons]
     refine ⟨⟨k, hk, hok, ?_⟩, ?_⟩
     · rw [hspki, hsd, digestOf_congr (d := forward hash sign D' x t) (d' := d1) rfl]
       exact hpair _
     · -- the older hops: unchanged sequences, and the target of the previous hop is this speaker's AS
       have ih' := allOk_congr hash verify m T (d := D') (d' := forward hash sign D' x t) rfl D'.path D'.sigs D'.targetAs ih
       cases older with
-      | nil => simp [D', buildPath, AllOk]
+      | nil => simp [D', buildPath, allOk_nil]
       | cons y ys =>
         obtain ⟨y1, y2⟩ := y
         have : D'.targetAs = x.seg.asn := by
